@@ -1,29 +1,33 @@
 #!/bin/bash
 # tools/rerun_old_base.sh <seed id>...
 # For kept seeds whose patch no longer applies to /repo's HEAD (later `fix:` commits rewrote the same lines): re-run them on
-# the /repo commit they were written against.  That older commit still has the defects repaired since, so the check reports
-# those as well; a seed counts as caught when the check reports a mechanism that the *unseeded* older commit does not.
-# Prints: <id> caught-on-<commit> <new mechanisms> | MISSED-on-<commit> | noapply-on-<commit>
+# the newest /repo commit the patch still applies to.  That older commit still has the defects repaired since, so the check
+# reports those as well; a seed counts as caught when the check reports a mechanism that the *unseeded* older commit does not.
+# Prints: <id> caught-on-<commit> <new mechanisms> | MISSED-on-<commit> | noapply-anywhere
 cd "$(dirname "$0")/.."
+V=$PWD
 W=${SEEDTEST:-/tmp/seedtest7}
 if [ ! -d "$W" ]; then
   git -C /repo worktree add -q --detach "$W" HEAD
 fi
 mechs() { grep '^VIOLATION' | sed 's/.*replay=[^ ]*\/C[0-9]*\///; s/-[0-9a-f]*\.json//' | sort -u; }
 for s in "$@"; do
-  prop=${s%_*}; n=${s#*_}
-  base=07555e5
-  if [ "$prop" = C06 ]; then [ "$n" -ge 14 ] && base=3130ca0; else [ "$n" -ge 13 ] && base=3130ca0; fi
-  git -C $W reset -q --hard; git -C $W checkout -q --detach $base
+  prop=${s%_*}
+  base=
+  for c in $(git -C /repo log --format=%h); do
+    git -C $W reset -q --hard; git -C $W checkout -q --detach $c
+    if git -C $W apply --check $V/seeded/$s/patch.diff 2>/dev/null; then base=$c; break; fi
+  done
+  if [ -z "$base" ]; then echo "$s noapply-anywhere"; continue; fi
   (cd $W && /venv/bin/python setup.py -q build_ext --inplace --force >/dev/null 2>&1)
   cache=/tmp/oldbase_${base}_${prop}.mechs
   if [ ! -s "$cache" ]; then
     VERIF_REPO=$W VERIF_BUILD=${W}_build ./check $prop --no-evidence 2>&1 | mechs > $cache
     [ -s "$cache" ] || echo "(none)" > $cache
   fi
-  if ! git -C $W apply --3way seeded/$s/patch.diff 2>/dev/null; then echo "$s noapply-on-$base"; continue; fi
+  git -C $W apply $V/seeded/$s/patch.diff
   if git -C $W diff HEAD --name-only | grep -q '\.[ch]$'; then (cd $W && /venv/bin/python setup.py -q build_ext --inplace --force >/dev/null 2>&1); fi
   new=$(VERIF_REPO=$W VERIF_BUILD=${W}_build ./check $prop --no-evidence 2>&1 | mechs | comm -23 - $cache | head -4 | paste -sd,)
   if [ -n "$new" ]; then echo "$s caught-on-$base $new"; else echo "$s MISSED-on-$base"; fi
 done
-git -C $W reset -q --hard
+git -C $W reset -q --hard; git -C $W checkout -q --detach $(git -C /repo rev-parse HEAD)
